@@ -476,11 +476,11 @@ def tcp_state(sock):
     return struct.unpack('B', sock.getsockopt(socket.IPPROTO_TCP, socket.TCP_INFO, 8)[:1])[0]
 
 
-def reply_to_departed_peer_case(ctx, seed):
+def reply_to_departed_peer_case(ctx, seed, sends_after_reset=0):
     """TCP: the client sends complete messages and leaves (FIN); the accepted port, which has not
     read yet, sends a reply (the write succeeds, the answer is a RST); then it is iterated."""
     rng = random.Random(seed)
-    case = lambda: {'kind': 'reply-to-departed', 'seed': seed}  # noqa: E731
+    case = lambda: {'kind': 'reply-to-departed', 'seed': seed, 'sends_after_reset': sends_after_reset}  # noqa: E731
     msgs = rand_msgs(rng, rng.randrange(1, 5))
     stream, ends = stream_of(msgs)
     sleeps = Sleeps(limit=300, real=0.001)
@@ -519,6 +519,12 @@ def reply_to_departed_peer_case(ctx, seed):
         if not wait(lambda: tcp_state(port._socket) == 7):                          # CLOSE (RST seen)
             ctx.count('reply-to-departed: set-up not reached (not judged)')
             return
+        # the port notices the disconnect by WRITING (broken pipe) rather than by reading
+        for _ in range(sends_after_reset):
+            try:
+                port.send(Message('note_off', note=2))
+            except (OSError, ValueError):
+                pass
         got = []
         try:
             for m in port:
@@ -529,9 +535,12 @@ def reply_to_departed_peer_case(ctx, seed):
         except Exception as exc:
             ctx.check('iteration ends without exception', False, f'reply-to-departed-raised:{type(exc).__name__}',
                       case, f'{type(exc).__name__}: {exc}')
-        ctx.check('delivered == complete messages before the cut', got == msgs, 'reply-to-departed-differs', case,
+        # (once the port has closed itself on a failed write it may not read on: a prefix is all that is required then)
+        ctx.check('delivered == complete messages before the cut', got == msgs if not sends_after_reset else got == msgs[:len(got)],
+                  'reply-to-departed-differs', case,
                   lambda: {'got': [m.hex() for m in got], 'want': [m.hex() for m in msgs]})
-        ctx.check('port reports closed after disconnect', port.closed, 'reply-to-departed-not-closed', case, None)
+        ctx.check('port reports closed after disconnect', port.closed and (not sends_after_reset or port._socket.fileno() == -1),
+                  'reply-to-departed-not-closed', case, {'closed': port.closed, 'fileno': port._socket.fileno()})
     except Exception as exc:
         ctx.fail('iteration ends without exception', f'reply-to-departed:{type(exc).__name__}', case,
                  f'{type(exc).__name__}: {exc}')
@@ -794,6 +803,9 @@ def run(ctx):
         reply_to_departed_peer_case(ctx, f'{ctx.seed}:{ctx.shard}:d{j}')
         ctx.nontrivial(('departed', ctx.seed, ctx.shard, j))
         n += 1
+        reply_to_departed_peer_case(ctx, f'{ctx.seed}:{ctx.shard}:e{j}', sends_after_reset=1 + (j + ctx.shard) % 3)
+        ctx.nontrivial(('departed-write', ctx.seed, ctx.shard, j))
+        n += 1
     for ci, count in enumerate((1023, 1025, 4095, 4097, 6000)):
         if ci % ctx.nshards == (ctx.shard + 5) % ctx.nshards:
             burst_then_disconnect_case(ctx, count)
@@ -831,7 +843,7 @@ def replay(ctx, case):
     elif k == 'dying-client':
         dying_client_case(ctx, case['seed'], case['order'])
     elif k == 'reply-to-departed':
-        reply_to_departed_peer_case(ctx, case['seed'])
+        reply_to_departed_peer_case(ctx, case['seed'], case.get('sends_after_reset', 0))
     elif k == 'server':
         server_case(ctx, case['seed'], case['clients'], case['mode'])
     else:
